@@ -76,27 +76,48 @@ TRUSTED = [
     "solvePsdCase — is tied by correspondence only",
 ]
 RULE = (
-    "systems are generated in modal layout: every equation is rigid-body (k = b = 0), elastic (0.5-30 Hz, "
+    "systems are generated in modal layout: every equation is rigid-body (k = 0; b = 0 on the coupled path; on the "
+    "uncoupled path 60 % of the systems with rigid-body modes give them damping b in 0.05-3 times m, real or complex, "
+    "all or only some of the modes, with m None / vector / diagonal 2-D and rb automatic / explicit / permuted / bool), "
+    "elastic (0.5-30 Hz, "
     "damping ratio 0.005-2, proportional / non-proportional / diagonal damping) or residual-flexibility (stiff), "
     "blocks decoupled from each other, positions contiguous or interleaved, n <= 7, mass None / vector / full "
     "matrix, real or complex (hysteretic stiffness, complex damping or mass); rb given as nothing / index vector "
     "(also unsorted) / bool vector, rf as index vector (also unsorted); pre_eig systems are free-free or grounded "
-    "spring-damper chains in physical coordinates; every 4th system is repeated with float32 matrices and every 4th "
+    "spring chains in physical coordinates with a damper chain, stiffness-proportional, mass-proportional (also as a "
+    "damping vector) or general Rayleigh damping (the last three are diagonal after pre_eig, so a free-free model "
+    "takes the uncoupled path with a damped rigid-body mode); two fixed coupled systems with a user-given rigid-body "
+    "mode that carries damping (tied only); every 4th system is repeated with float32 matrices and every 4th "
     "with integer matrices, every 5th with complex64 forces.  Each system is run with all 8 incrb subsets x "
     "rf_disp_only in {F,T} (letters in random order; integer forms sampled), 1-4 frequencies including 0 Hz "
     "(SolveUnc), near-resonance values, repeated values and a scalar frequency, complex random forces; a fixed "
     "stream covers 1-D force arrays.  A case is one (system, options, solver) evaluation compared on every entry of "
     "d, v, a; plus one exact comparison of the constructor bookkeeping (nonrf, rb, el, _rb, _el, kdof, the rows "
     "behind the reduced m, b, k, imrb, invm) per (system, solver); plus solvepsd cases with rbduf / elduf in "
-    "{1, 1.25, 0.8, 2}.  Non-trivial = the system has at least two partitions or is coupled/complex/pre_eig; "
+    "{1, 1.25, 0.8, 2}, every 8th on a system with a damped rigid-body mode; plus one exact comparison per uncoupled "
+    "SolveUnc object of the damping its rigid-body solution reads (b[_rb] / brb) with the rows the model names.  "
+    "Non-trivial = the system has at least two partitions or is coupled/complex/pre_eig; "
     "distinct by the full input.  Cases whose measured eigen-specification residual or dynamic-stiffness condition "
     "number is outside the guard are skipped and counted."
 )
 ASSUMPTIONS = [
     "modal-space equations: rigid-body, elastic and residual-flexibility partitions are decoupled from each other "
     "(the solvers extract the diagonal blocks and ignore anything else)",
-    "rigid-body equations have zero stiffness and damping when SolveUnc is compared with FreqDirect",
-    "the dynamic stiffness of the elastic block is non-singular at the requested frequencies (cond <= 1e8 in the runs)",
+    "rigid-body equations have zero stiffness when SolveUnc is compared with FreqDirect (SolveUnc treats |k| < 0.005 as "
+    "zero, FreqDirect keeps it); their damping is arbitrary on the uncoupled path (modelled, proved, compared)",
+    "coupled systems: a rigid-body mode has zero damping by the detection rule (its row and column of k and of b are "
+    "below 0.005); a user-given rb on a coupled system with damping on those modes is outside the property - "
+    "SolveUnc solves it as a = M^-1 F, FreqDirect keeps the damping; the model does what the source does (tied by a "
+    "fixed correspondence stream), the oracle does not judge it (counted as an observation)",
+    "at exactly 0 Hz the dynamic-stiffness equation of a rigid-body row reads 0*d = F and has no solution for F != 0 "
+    "(frfRb_zero_freq_unsolvable): there the documented convention a = M^-1 F, v = d = 0 is what is required, with or "
+    "without damping (frfRbD_zero_freq), instead of the residual rule; FreqDirect is not run at 0 Hz on systems with "
+    "rigid-body modes",
+    "the dynamic stiffness of the elastic block is non-singular at the requested frequencies (cond <= 1e8 in the runs) "
+    "and so is that of every damped rigid-body row (-W^2 m + iW b != 0: automatic for real m, b - "
+    "rbDamp_den_ne_zero_real - and excludes only b = -iWm for complex b); a non-finite response is accepted only if "
+    "such a dynamic stiffness really is outside the conditioning domain (cond > 1e8; 1e5 for float32 matrices) at a "
+    "requested frequency",
     "partition vectors are valid: rf entries distinct and < n, a user rb vector distinct, < n and disjoint from rf",
     "solvepsd uncertainty factors are judged for modal-space solvers only (with pre_eig the source scales physical "
     "rows; recorded as an observation)",
@@ -104,10 +125,16 @@ ASSUMPTIONS = [
 PARTIAL = (
     "the coupled elastic block rests on the eigen-decomposition specification (hypothesis hcoup of colSU_solves = the "
     "relations of frfCoupled_solves: A U = U Lambda in partitioned form and the U^-1 partitions; residuals measured per "
-    "case, not proved); the full-size equation (colSU_solves / colFD_solves) is stated for incrb = 'dva', rf_disp_only = "
-    "False, W != 0, and every other option value / W = 0 is related to that column entry by entry (colSU_options, "
-    "colFD_options, frfRb_zero_freq) rather than by a separate full-size equation; the pre_eig path rests on the eigh "
-    "specification (preEig_solves assumes phi^T M phi = Mm etc. and det phi != 0; residual measured per case); the "
+    "case, not proved); for W != 0 the full-size equation is proved for every incrb / rf_disp_only value for SolveUnc "
+    "(colSU_solves_options) but for FreqDirect only for incrb = 'dva', rf_disp_only = False (colFD_solves), its other "
+    "option values being related to that column entry by entry (colFD_options); W = 0 has no full-size theorem: it is "
+    "covered row-wise (frfRbD_zero_freq: d = v = 0, a = f/m on a rigid-body row with any damping - the documented "
+    "convention, which is not a solution of the equation: frfRb_zero_freq_unsolvable) and through colSU_options / "
+    "colFD_options, which hold for every W; SolveUnc = FreqDirect at full size is proved for uncoupled systems "
+    "(colSU_eq_colFD_unc, damped rigid-body modes included) and for coupled systems only for the elastic block "
+    "(direct_eq_modal_gauss); nothing is claimed for a user-given rb on a coupled system with damping on those modes "
+    "(the model, like the source, solves them without it: ColEnv.rbDamping; tied only); the pre_eig path rests on the "
+    "eigh specification (preEig_solves assumes phi^T M phi = Mm etc. and det phi != 0; residual measured per case); the "
     "array plumbing of the whole call (loop over the frequencies, Array/List conversions, phi^T F and phi d as "
     "executed) is tied by correspondence only; floating-point accuracy is measured, not proved"
 )
@@ -115,7 +142,10 @@ MANIFEST = {
     "level_text": "Proof (Lean 4, kernel-checked, standard axioms only) about the definitions the driver executes, over any "
     "field with an element i (instantiated at C; non-vacuity instances evaluated over ZMod 5). Formulas: the uncoupled "
     "closed forms of SolveUnc and FreqDirect solve (k - m W^2 + i W b) d = f with v = iWd, a = -W^2 d; the rigid-body "
-    "solution solves -W^2 m d = f for W != 0 and is d = v = 0, a = f/m at W = 0; for each of the 8 incrb subsets "
+    "solution of an uncoupled system (repaired code, findings F51 / F52) solves (-W^2 m + iW b) d = f for W != 0, every "
+    "m != 0 and any damping b (frfRb_damped_solves; b = 0 gives the undamped row: frfRb_damped_reduces, frfRb_solves), "
+    "is FreqDirect's row (rowUnc_eq_rowDirect) and is d = v = 0, a = f/m at W = 0 (frfRbD_zero_freq), where the "
+    "equation itself has no solution (frfRb_zero_freq_unsolvable); for each of the 8 incrb subsets "
     "exactly the complementary rigid-body rows are zero; residual-flexibility rows are static with v, a zero iff "
     "rf_disp_only; the complex-mode solution solves the matrix equation given the eigen-decomposition specification, "
     "hence equals the direct solution. Linear solves: the model's Gaussian elimination with partial pivoting returns "
@@ -124,10 +154,16 @@ MANIFEST = {
     "rb (sorted), nonrf[_el] = el and rb ++ el ++ rf a permutation of 0..n-1 for every rf / rb specification "
     "(layout_correct); the SolveUnc constructor as explicit state (get_su_eig shrinking m, b, k, kdof and emptying "
     "_rb) pairs force[rb] with the rigid-body equations' own mass rows on every path (imrb_correct; the inputs of "
-    "findings F8, F27, F28, F36 are evaluated instances). Scatter: every row of d, v, a is written exactly once by "
+    "findings F8, F27, F28, F36 are evaluated instances) and with their own damping rows - b[_rb], or brb kept by "
+    "get_su_eig before the reduction (rbDampRows_correct; the inputs of F51, F52 are evaluated instances: "
+    "damped_rb_instances). Scatter: every row of d, v, a is written exactly once by "
     "its own block (scatter_covers) and the assembled column satisfies the full-size block-diagonal-by-partition "
-    "equation row by row (fsolve_full_solves); colSU_solves / colFD_solves carry this from the constructor state "
-    "through the block solves to the returned column of SolveUnc.fsolve / FreqDirect.fsolve, and colSU_options / "
+    "equation row by row (fsolve_full_solves; the rigid-body block is iW B - W^2 M with B the diagonal damping of the "
+    "rigid-body modes on the uncoupled path and zero on the coupled path); colSU_solves / colFD_solves carry this from "
+    "the constructor state through the block solves to the returned column of SolveUnc.fsolve / FreqDirect.fsolve; for "
+    "uncoupled systems the two full-size matrices coincide, hence the two columns (colSU_eq_colFD_unc); "
+    "colSU_solves_options states the full-size equation and the v, a relations directly for every incrb subset and "
+    "both rf_disp_only values; colSU_options / "
     "colFD_options show that for every incrb subset, both rf_disp_only values and every W the returned column is "
     "that column with exactly the excluded letters cleared on the rigid-body rows and v, a cleared on the "
     "residual-flexibility rows iff rf_disp_only. solvepsd: response PSD "
@@ -137,7 +173,8 @@ MANIFEST = {
     "option grid, dtype and shape axes included, and the constructor state is compared exactly.",
     "level_note": "Partial: the eigen-decomposition (eig) and eigh of pre_eig are specifications whose residuals are measured "
     "each run; the per-frequency loop and the pre_eig transforms are tied by correspondence; floating-point accuracy "
-    "is measured (1e-9 relative inside a conditioning guard; 2e-5 for float32 matrices), not proved.",
+    "is measured (1e-9 relative inside a conditioning guard; 2e-5 for float32 matrices), not proved; a user-given "
+    "rigid-body mode with damping on a coupled system is only tied (the source ignores that damping).",
     "technique": "Lean 4 proof (field algebra, Mathlib matrices and permutations, structural recursion for the elimination, "
     "decide for the incrb subsets and the recorded finding inputs) + numeric and exact differential correspondence "
     "with SolveUnc/FreqDirect/solvepsd + model-free residual oracle",
@@ -1247,26 +1284,37 @@ def _rel(res, *terms):
     return float(abs(res).max(initial=0.0)) / max(sc, 1e-300)
 
 
-def _singular_somewhere(spec, M, B, K, freq):
-    """is some dynamic stiffness the solver has to invert (numerically) singular at a requested frequency?"""
+def _singular_somewhere(spec, M, B, K, freq, ts=None):
+    """is some dynamic stiffness the solver has to invert outside the conditioning domain (cond > 1e8; 1e5 for float32
+    matrices) at a requested frequency?  SolveUnc at 0 Hz: the rigid-body block is excluded (documented convention)."""
+    lim = 1e5 if spec.get("variant") == "f32" else 1e8
+    n = M.shape[0]
     if spec["pre_eig"] or not spec["cls"]:
-        blocks = [list(range(M.shape[0]))] if not spec["rf"] else [[i for i in range(M.shape[0]) if i not in spec["rf"]]]
-        zero_ok = False
+        rf = list(spec["rf"] or [])
+        blocks, zero_ok = [[i for i in range(n) if i not in rf]], False
     else:
         cls = spec["cls"]
         rb, el = _idx(cls, "rb"), _idx(cls, "el")
         if spec["solver"] == "fd":
             blocks, zero_ok = [sorted(rb + el)], False
         else:
-            blocks, zero_ok = [el, rb], True  # SolveUnc: 0 Hz on the rigid-body block is the documented convention
+            blocks, zero_ok = [el, rb], True
     for f in freq:
         W = 2 * np.pi * f
+        if W == 0 and spec["pre_eig"] and not spec["rf"]:
+            # modal coordinates: the modes the solver took as rigid-body (|k| < 0.005) follow the 0 Hz convention,
+            # every other mode must have a stiffness inside the conditioning domain
+            w = np.sort(abs(la.eigvalsh(K, M)))
+            w = w[int(getattr(ts, "rbsize", 0) or 0):]
+            if w.size and (w.min() == 0 or w.max() / w.min() > lim):
+                return True
+            continue
         for bi, blk in enumerate(blocks):
             if not blk or (zero_ok and bi == 1 and (W == 0 or not _rb_damped(spec))):
                 continue
             H = -W * W * M[np.ix_(blk, blk)] + 1j * W * B[np.ix_(blk, blk)] + (K[np.ix_(blk, blk)] if not (zero_ok and bi == 1) else 0)
             with np.errstate(all="ignore"):
-                if not np.isfinite(H).all() or np.linalg.cond(H) > 1e12:
+                if not np.isfinite(H).all() or np.linalg.cond(H) > lim:
                     return True
     return False
 
@@ -1298,7 +1346,7 @@ def _oracle_fsolve(spec, other=None):
         inc = {0: "", 1: "va", 2: "dva"}[inc]
     if not all(np.isfinite(c).all() for c in (d, v, a)):
         # outside the domain only if a dynamic stiffness really is singular at a requested frequency
-        if not _singular_somewhere(spec, M, B, K, freq):
+        if not _singular_somewhere(spec, M, B, K, freq, ts):
             zero_hz = bool(spec["solver"] == "su" and 0.0 in spec["freq"] and _rb_damped(spec)
                            and not np.isfinite(np.asarray(a)[:, np.array(spec["freq"]) == 0.0]).all())
             fail("fsolve-unc-damped-rigid-body-mode-0Hz-non-finite" if zero_hz else _fam(spec, "non-finite-response"),
